@@ -304,6 +304,15 @@ def rule_cursors(ctx, db):
         ws = [bb for bb, _ in calls(f, r"Buffer::<B>::with_sync$")]
         ctx.ob("R5", "bufwriter-flushes-before-append:" + m, bool(fl) and bool(ws) and all(any(f.cfg.dominates(a, b) for a in fl) for b in ws),
                "flush_if_needed precedes the copy into the buffer", f)
+    # ---- BufWriter::flush: the buffer is emptied into the inner writer and then the inner writer is flushed
+    bf = [f for f in db.fns.values() if f.kind == "coroutine" and db.root_fn(f).name == "<compio_io::write::buf::BufWriter<W> as compio_io::write::AsyncWrite>::flush"]
+    if not bf:
+        ctx.missing("R5", "BufWriter::flush")
+    for f in bf:
+        ft = [bb for bb, _ in calls(f, r"Buffer::<B>::flush_to$")]
+        inner = [bb for bb, _ in calls(f, r"compio_io::write::AsyncWrite::flush$")]
+        ctx.ob("R5", "bufwriter-flush-reaches-the-inner-writer", bool(ft) and bool(inner) and all(any(f.cfg.dominates(a, b) for a in ft) for b in inner),
+               "flush() first empties the buffer into the inner writer (flush_to) and then calls the inner writer's flush()", f)
     # ---- Take
     tr = [f for f in db.fns.values() if f.kind == "coroutine" and f.name.startswith("<compio_io::util::take::Take<R> as compio_io::read::AsyncRead>::read::")]
     if not tr:
